@@ -58,6 +58,9 @@ type Script struct {
 	NoClose  bool      `json:"never_close_input"` // only with a StopPlan
 	Cons     []CStep   `json:"consumer"`          // cycled; empty = always ready, immediate release
 	Stop     *StopPlan `json:"stop,omitempty"`
+	// unite: the producer cuts its input slices out of one backing array (as a producer that
+	// parses one buffer would) instead of allocating each slice separately
+	SharedArray bool `json:"producer_shares_one_array"`
 }
 
 // Out is one delivered slice as observed.
@@ -209,6 +212,14 @@ func Execute(t *testing.T, s Script, leakScan bool) Trace {
 		go func() {
 			defer helpers.Done()
 			next := 0
+			total := 0
+			for _, st := range s.Prod {
+				total += st.Len
+			}
+			arr := make([]int, total)
+			for i := range arr {
+				arr[i] = i
+			}
 			for si, st := range s.Prod {
 				select {
 				case <-time.After(time.Duration(st.Gap)):
@@ -220,6 +231,9 @@ func Execute(t *testing.T, s Script, leakScan bool) Trace {
 					sl := make([]int, st.Len)
 					for i := range sl {
 						sl[i] = next + i
+					}
+					if s.SharedArray {
+						sl = arr[next : next+st.Len]
 					}
 					select {
 					case ins <- sl:
